@@ -332,6 +332,8 @@ def cases(rng, tier):
     out = []
     out += facade_cases(rng, tier)
     out += reentrant_cases()
+    # the same scenarios with appender 0 FAILING after its work and a recording error handler on the initial logger
+    out += [c + [1] for c in reentrant_cases()[::3]] + [c + [1] for c in position_cases()[::4]]
     out += position_cases()
     out += drop_cases()
     for _ in range(1500 if tier == "quick" else 20000):
@@ -427,7 +429,30 @@ def run_impl(ctx, cases, lines):
     return res
 
 
+def model_lines(ctx, cases, lines, impl_lines):
+    """kind 0 with a failing appender / recording error handler (7th component): the routing model is the same"""
+    vc = ctx["vc"]
+    return [vc.show(c[:6]) if (c[0] == 0 and len(c) > 6) else ln for c, ln in zip(cases, lines)]
+
+
 # ----------------------------------------------------------------------------- judging
+def handler_oracle(c, impl):
+    """kind 0, 7th component set: appender 0 of every configuration fails after its work, the INITIAL logger was built
+    with its own error handler.  A failure is reported by the handler of the snapshot that routed the record: every
+    delivery to appender 0 under the initial configuration - and no other - shows up as one handler call, also when
+    the configuration was replaced (re-entrantly, or by another thread) while the record was in flight."""
+    init_tag = c[1][c[2]][0]
+    installed = {c[1][r[4]][0] for r in c[3]} | {c[1][op[1]][0] for prog in c[4] for op in prog if op[0] == 1}
+    if init_tag in installed:
+        return None          # the initial configuration is installed again later: its tag is ambiguous
+    want = sorted((e[1], e[2], e[3], e[4]) for e in impl if isinstance(e, list) and e and e[0] == 1 and e[3] == init_tag and e[4] == 0)
+    got = sorted((e[1], e[2], e[3], e[4]) for e in impl if isinstance(e, list) and e and e[0] == 5)
+    if want != got:
+        return ("error handler calls of the initial logger (thread, record, config, appender) %r; the failed deliveries "
+                "routed under that logger's configuration are %r" % (got, want))
+    return None
+
+
 def _canon(ev, with_tag):
     recs = {}
     stores = []
@@ -451,6 +476,10 @@ def compare(c, impl, model):
     if not isinstance(impl, list):
         return "implementation did not produce a result: %r" % (impl,)
     if k == 0:
+        if len(c) > 6 and c[6] == 1:
+            d = handler_oracle(c, impl)
+            if d:
+                return d
         ri, si, pi = _canon(impl, False)
         rm, sm, pm = _canon(model, True)
         if pi:
